@@ -16,13 +16,13 @@ theorem RV_stable : Stable (RV w ρ oi ow c) := fun _ _ _ _ hf h => h.mono hf
 theorem valType_good_of {fuel : Nat}
     (hd : Good (Inv w ρ oi ow c) (definedType w fuel) (fun st d v => RV w ρ oi ow c st (.ty d) v)) :
     Good (Inv w ρ oi ow c) (valType w fuel) (RV w ρ oi ow c) := by
-  intro st x st' y hP h
+  intro st x st' y h
   cases x with
   | prim p =>
     simp only [valType] at h
     cases h
-    exact ⟨Frame.refl _, hP, RV_prim _ _⟩
-  | ty d => exact hd _ _ _ _ hP h
+    exact ⟨Frame.refl _, fun hP => ⟨hP, RV_prim _ _⟩⟩
+  | ty d => exact hd _ _ _ _ h
 
 /-- one converted child: `list`, `option`, `fixed-size list` -/
 theorem one_child {st : St} {x : WVal} {v : ValueType} (r1 : RV w ρ oi ow c st x v)
@@ -50,16 +50,16 @@ theorem leaf_eq {w : WTypes} {r : Nat} {l : Res} (h : leaf w r = some l) :
 
 theorem definedType_good (hn : NamesOk w) :
     ∀ fuel, Good (Inv w ρ oi ow c) (definedType w fuel) (fun st d v => RV w ρ oi ow c st (.ty d) v)
-  | 0 => by intro st d st' v _ h; simp [definedType] at h
+  | 0 => by intro st d st' v h; simp [definedType] at h
   | fuel + 1 => by
     have ihd := definedType_good hn fuel
     have ihv := valType_good_of ihd
-    intro st d st' v hP h
+    intro st d st' v h
     rw [definedType_succ] at h
     split at h
     · rename_i v0 hl
       cases h
-      exact ⟨Frame.refl _, hP, hP.defined d _ hl⟩
+      exact ⟨Frame.refl _, fun hP => ⟨hP, hP.defined d _ hl⟩⟩
     · cases h
     · split at h
       · cases h
@@ -68,6 +68,7 @@ theorem definedType_good (hn : NamesOk w) :
         split at h
         · -- prim
           rename_i p hb
+          refine ⟨finishDef_frame h, fun hP => ?_⟩
           exact finishDef_ok hP (by
             intro g tt ht T' F he' hF
             obtain ⟨g', rfl⟩ := valTree_pos ht
@@ -79,72 +80,77 @@ theorem definedType_good (hn : NamesOk w) :
           rename_i fs hb
           split at h
           · rename_i st1 fs' hl
-            obtain ⟨f1, p1, r1⟩ := loopM_good (namedM_good ihv) (Stable.named RV_stable) _ _ _ _ hP hl
+            obtain ⟨f1, k1⟩ := loopM_good (namedM_good ihv) (Stable.named RV_stable) _ _ _ _ hl
             have hnd : (fs'.map (·.1)).Nodup := by
-              rw [All2_named_fst r1]
+              rw [loopM_named_fst hl]
               rw [hb] at hok
               exact of_decide_eq_true hok
             rw [collectMap_nodup _ hnd] at h
-            obtain ⟨f2, p2, r2⟩ := finishDef_ok p1 (by
+            refine ⟨f1.trans (finishDef_frame h), fun hP => ?_⟩
+            obtain ⟨p1, r1⟩ := k1 hP
+            exact finishDef_ok p1 (by
               intro g tt ht T' F he' hF
               obtain ⟨g', rfl⟩ := valTree_pos ht
               simp only [valTree, he, hb] at ht
               obtain ⟨fr, hc, rfl⟩ := Option.map_eq_some_iff.mp ht
               simp only [unfoldDefined, namedTrees_fact r1 g' fr hc T' F he' hF]; rfl) h
-            exact ⟨f1.trans f2, p2, r2⟩
           · cases h
           · cases h
         · -- variant
           rename_i cs hb
           split at h
           · rename_i st1 cs' hl
-            obtain ⟨f1, p1, r1⟩ := loopM_good (namedM_good (optM_good ihv))
-              (Stable.named (Stable.opt RV_stable)) _ _ _ _ hP hl
+            obtain ⟨f1, k1⟩ := loopM_good (namedM_good (optM_good ihv))
+              (Stable.named (Stable.opt RV_stable)) _ _ _ _ hl
             have hnd : (cs'.map (·.1)).Nodup := by
-              rw [All2_named_fst r1]
+              rw [loopM_named_fst hl]
               rw [hb] at hok
               exact of_decide_eq_true hok
             rw [collectMap_nodup _ hnd] at h
-            obtain ⟨f2, p2, r2⟩ := finishDef_ok p1 (by
+            refine ⟨f1.trans (finishDef_frame h), fun hP => ?_⟩
+            obtain ⟨p1, r1⟩ := k1 hP
+            exact finishDef_ok p1 (by
               intro g tt ht T' F he' hF
               obtain ⟨g', rfl⟩ := valTree_pos ht
               simp only [valTree, he, hb] at ht
               obtain ⟨fr, hc, rfl⟩ := Option.map_eq_some_iff.mp ht
               simp only [unfoldDefined, namedOptTrees_fact r1 g' fr hc T' F he' hF]; rfl) h
-            exact ⟨f1.trans f2, p2, r2⟩
           · cases h
           · cases h
         · -- list
           rename_i t hb
           split at h
           · rename_i st1 v1 hv1
-            obtain ⟨f1, p1, r1⟩ := ihv _ _ _ _ hP hv1
-            obtain ⟨f2, p2, r2⟩ := finishDef_ok p1 (by
+            obtain ⟨f1, k1⟩ := ihv _ _ _ _ hv1
+            refine ⟨f1.trans (finishDef_frame h), fun hP => ?_⟩
+            obtain ⟨p1, r1⟩ := k1 hP
+            exact finishDef_ok p1 (by
               intro g tt ht T' F he' hF
               obtain ⟨g', rfl⟩ := valTree_pos ht
               simp only [valTree, he, hb] at ht
               exact one_child r1 (mk' := .list) (fun _ => by simp [renT]) ht he' hF) h
-            exact ⟨f1.trans f2, p2, r2⟩
           · cases h
           · cases h
         · -- tuple
           rename_i ts hb
           split at h
           · rename_i st1 vs hl
-            obtain ⟨f1, p1, r1⟩ := loopM_good ihv RV_stable _ _ _ _ hP hl
-            obtain ⟨f2, p2, r2⟩ := finishDef_ok p1 (by
+            obtain ⟨f1, k1⟩ := loopM_good ihv RV_stable _ _ _ _ hl
+            refine ⟨f1.trans (finishDef_frame h), fun hP => ?_⟩
+            obtain ⟨p1, r1⟩ := k1 hP
+            exact finishDef_ok p1 (by
               intro g tt ht T' F he' hF
               obtain ⟨g', rfl⟩ := valTree_pos ht
               simp only [valTree, he, hb] at ht
               obtain ⟨fr, hc, rfl⟩ := Option.map_eq_some_iff.mp ht
               simp only [unfoldDefined, unnamedTrees_fact r1 g' fr hc T' F he' hF]; rfl) h
-            exact ⟨f1.trans f2, p2, r2⟩
           · cases h
           · cases h
         · -- flags
           rename_i ns hb
           rw [hb] at hok
           rw [collectSet_nodup _ (of_decide_eq_true hok)] at h
+          refine ⟨finishDef_frame h, fun hP => ?_⟩
           exact finishDef_ok hP (by
             intro g tt ht T' F he' hF
             obtain ⟨g', rfl⟩ := valTree_pos ht
@@ -155,6 +161,7 @@ theorem definedType_good (hn : NamesOk w) :
           rename_i ns hb
           rw [hb] at hok
           rw [collectSet_nodup _ (of_decide_eq_true hok)] at h
+          refine ⟨finishDef_frame h, fun hP => ?_⟩
           exact finishDef_ok hP (by
             intro g tt ht T' F he' hF
             obtain ⟨g', rfl⟩ := valTree_pos ht
@@ -165,25 +172,29 @@ theorem definedType_good (hn : NamesOk w) :
           rename_i t hb
           split at h
           · rename_i st1 v1 hv1
-            obtain ⟨f1, p1, r1⟩ := ihv _ _ _ _ hP hv1
-            obtain ⟨f2, p2, r2⟩ := finishDef_ok p1 (by
+            obtain ⟨f1, k1⟩ := ihv _ _ _ _ hv1
+            refine ⟨f1.trans (finishDef_frame h), fun hP => ?_⟩
+            obtain ⟨p1, r1⟩ := k1 hP
+            exact finishDef_ok p1 (by
               intro g tt ht T' F he' hF
               obtain ⟨g', rfl⟩ := valTree_pos ht
               simp only [valTree, he, hb] at ht
               exact one_child r1 (mk' := .option) (fun _ => by simp [renT]) ht he' hF) h
-            exact ⟨f1.trans f2, p2, r2⟩
           · cases h
           · cases h
         · -- result
           rename_i ok err hb
           split at h
           · rename_i st1 a ha
-            obtain ⟨f1, p1, r1⟩ := optM_good ihv _ _ _ _ hP ha
+            obtain ⟨f1, k1⟩ := optM_good ihv _ _ _ _ ha
             split at h
             · rename_i st2 b hb2
-              obtain ⟨f2, p2, r2⟩ := optM_good ihv _ _ _ _ p1 hb2
+              obtain ⟨f2, k2⟩ := optM_good ihv _ _ _ _ hb2
+              refine ⟨(f1.trans f2).trans (finishDef_frame h), fun hP => ?_⟩
+              obtain ⟨p1, r1⟩ := k1 hP
+              obtain ⟨p2, r2⟩ := k2 p1
               have r1' := Stable.opt RV_stable _ _ _ _ f2 r1
-              obtain ⟨f3, p3, r3⟩ := finishDef_ok p2 (by
+              exact finishDef_ok p2 (by
                 intro g tt ht T' F he' hF
                 obtain ⟨g', rfl⟩ := valTree_pos ht
                 simp only [valTree, he, hb] at ht
@@ -193,7 +204,6 @@ theorem definedType_good (hn : NamesOk w) :
                   simp only [unfoldDefined, optTree_fact r1' g' ta hta T' F he' hF,
                     optTree_fact r2 g' tb htb T' F he' hF]; rfl
                 · cases ht) h
-              exact ⟨(f1.trans f2).trans f3, p3, r3⟩
             · cases h
             · cases h
           · cases h
@@ -203,6 +213,7 @@ theorem definedType_good (hn : NamesOk w) :
           split at h
           · rename_i id hl
             cases h
+            refine ⟨Frame.ofCacheInsert _ _ _, fun hP => ?_⟩
             have hrv : RV w ρ oi ow c st (.ty d) (.borrow id) := by
               intro g tt ht T' F he' hF
               obtain ⟨g', rfl⟩ := valTree_pos ht
@@ -213,13 +224,14 @@ theorem definedType_good (hn : NamesOk w) :
               rw [he1] at he2; cases he2
               obtain ⟨F', rfl⟩ : ∃ F', F = F' + 1 := ⟨F - 1, by omega⟩
               simp only [Types.unfoldVT, hl2 T' he', renT, hidx]; rfl
-            exact ⟨Frame.ofCacheInsert _ _ _, hP.insertDefined d _ hrv, hrv⟩
+            exact ⟨hP.insertDefined d _ hrv, hrv⟩
           · cases h
         · -- own
           rename_i r hb
           split at h
           · rename_i id hl
             cases h
+            refine ⟨Frame.ofCacheInsert _ _ _, fun hP => ?_⟩
             have hrv : RV w ρ oi ow c st (.ty d) (.own id) := by
               intro g tt ht T' F he' hF
               obtain ⟨g', rfl⟩ := valTree_pos ht
@@ -230,45 +242,48 @@ theorem definedType_good (hn : NamesOk w) :
               rw [he1] at he2; cases he2
               obtain ⟨F', rfl⟩ : ∃ F', F = F' + 1 := ⟨F - 1, by omega⟩
               simp only [Types.unfoldVT, hl2 T' he', renT, hidx]; rfl
-            exact ⟨Frame.ofCacheInsert _ _ _, hP.insertDefined d _ hrv, hrv⟩
+            exact ⟨hP.insertDefined d _ hrv, hrv⟩
           · cases h
         · -- stream
           rename_i t hb
           split at h
           · rename_i st1 v1 hv1
-            obtain ⟨f1, p1, r1⟩ := optM_good ihv _ _ _ _ hP hv1
-            obtain ⟨f2, p2, r2⟩ := finishDef_ok p1 (by
+            obtain ⟨f1, k1⟩ := optM_good ihv _ _ _ _ hv1
+            refine ⟨f1.trans (finishDef_frame h), fun hP => ?_⟩
+            obtain ⟨p1, r1⟩ := k1 hP
+            exact finishDef_ok p1 (by
               intro g tt ht T' F he' hF
               obtain ⟨g', rfl⟩ := valTree_pos ht
               simp only [valTree, he, hb] at ht
               exact one_opt_child r1 (mk' := .stream) (fun _ => by simp [renT]) ht he' hF) h
-            exact ⟨f1.trans f2, p2, r2⟩
           · cases h
           · cases h
         · -- future
           rename_i t hb
           split at h
           · rename_i st1 v1 hv1
-            obtain ⟨f1, p1, r1⟩ := optM_good ihv _ _ _ _ hP hv1
-            obtain ⟨f2, p2, r2⟩ := finishDef_ok p1 (by
+            obtain ⟨f1, k1⟩ := optM_good ihv _ _ _ _ hv1
+            refine ⟨f1.trans (finishDef_frame h), fun hP => ?_⟩
+            obtain ⟨p1, r1⟩ := k1 hP
+            exact finishDef_ok p1 (by
               intro g tt ht T' F he' hF
               obtain ⟨g', rfl⟩ := valTree_pos ht
               simp only [valTree, he, hb] at ht
               exact one_opt_child r1 (mk' := .future) (fun _ => by simp [renT]) ht he' hF) h
-            exact ⟨f1.trans f2, p2, r2⟩
           · cases h
           · cases h
         · -- fixed-size list
           rename_i t n hb
           split at h
           · rename_i st1 v1 hv1
-            obtain ⟨f1, p1, r1⟩ := ihv _ _ _ _ hP hv1
-            obtain ⟨f2, p2, r2⟩ := finishDef_ok p1 (by
+            obtain ⟨f1, k1⟩ := ihv _ _ _ _ hv1
+            refine ⟨f1.trans (finishDef_frame h), fun hP => ?_⟩
+            obtain ⟨p1, r1⟩ := k1 hP
+            exact finishDef_ok p1 (by
               intro g tt ht T' F he' hF
               obtain ⟨g', rfl⟩ := valTree_pos ht
               simp only [valTree, he, hb] at ht
               exact one_child r1 (mk' := (.fixedList · n)) (fun _ => by simp [renT]) ht he' hF) h
-            exact ⟨f1.trans f2, p2, r2⟩
           · cases h
           · cases h
         · cases h
